@@ -124,6 +124,8 @@ type Sim struct {
 	waitFn      func(p *pend) pendResult
 	Trace       io.Writer
 	StallDur    time.Duration
+	OobHook     func(o *OobSpec)                 // applies an out-of-band action (set by the executor)
+	OwnedFn     func(o *Obj) bool                // does the object carry this release's ownership metadata?
 }
 
 func NewSim(schedule []uint32, policy string) *Sim {
@@ -445,6 +447,24 @@ func targetStr(t *ObjID) string {
 func (s *Sim) serve(p *pend) {
 	p.proc.Served++
 	f := s.matchFault(p)
+	if f != nil && f.Kind == FOob {
+		// an out-of-band actor gets in just before this call is served; the call itself is served normally
+		if s.OobHook != nil && f.Oob != nil {
+			s.OobHook(f.Oob)
+			s.FaultsFired[FOob]++
+		}
+		f = nil
+	}
+	if p.kind == pkHTTP && p.target != nil && (p.verb == "PATCH" || p.verb == "PUT" || p.verb == "DELETE" || p.verb == "POST") && p.rec != nil {
+		switch o := s.Server.Get(*p.target); {
+		case o == nil:
+			p.rec.TargetState = "absent"
+		case s.OwnedFn != nil && s.OwnedFn(o):
+			p.rec.TargetState = "owned"
+		default:
+			p.rec.TargetState = "foreign"
+		}
+	}
 	s.mu.Lock()
 	p.served = true
 	s.mu.Unlock()
